@@ -24,6 +24,7 @@ fn main() {
         "c19_length_delimited" => c19_length_delimited(&mut nd),
         "c04_varint_receive" => c04_varint_receive(&mut nd),
         "c04_sink_flush" => c04_sink_flush(&mut nd),
+        "c04_frame_sequence" => c04_frame_sequence(&mut nd),
         "c10_store_insert" => c10_store_insert(&mut nd),
         "c10_store_addresses" => c10_store_addresses(&mut nd),
         "c05_address_shapes" => c05_address_shapes(&mut nd),
